@@ -154,6 +154,9 @@ var c20Odds = []c20Odd{
 	{Name: "kind-alias-vs-table", Shop: "    !table Swap:\n        id <: int [~pk]\n", Alt: "    !alias Swap:\n        string\n"},
 	{Name: "kind-union-vs-table", Shop: "    !table Swap:\n        id <: int [~pk]\n", Alt: "    !union Swap:\n        int\n        string\n"},
 	{Name: "kind-table-referenced-vs-type", Shop: "    !table Swap:\n        id <: int [~pk]\n    !table User:\n        uid <: int [~pk]\n        s <: Swap.id\n", Alt: "    !type Swap:\n        id <: int\n    !table User:\n        uid <: int [~pk]\n"},
+	{Name: "return-without-spaces", Shop: "    /odd:\n        GET:\n            return ok<:Item\n        POST:\n            return 200<:sequence of Item\n    Odd:\n        return ok<:string\n"},
+	{Name: "table-inplace-tuple", Shop: "    !table Odd:\n        id <: int [~pk]\n        inner <:\n            g <: int\n            h <: string\n"},
+	{Name: "type-inplace-tuple-nested", Shop: "    !type Odd:\n        f <:\n            g <: int\n            h <:\n                i <: Item\n"},
 	{Name: "dotted-type-names", Shop: "    !type Outer%2EInner:\n        f <: int\n    !type Outer:\n        g <: Outer%2EInner\n    !type Ref:\n        h <: Outer.Inner\n"},
 }
 
